@@ -202,6 +202,20 @@ class _Canon(ast.NodeTransformer):
                 return ast.Name(id='self', ctx=ast.Load())
             return ast.Name(id='self#%d' % fr.id, ctx=ast.Load())
         owner = _is_local(fr, node.id)
+        if owner is not None and owner.parent is not None and \
+                node.id in owner.ctx.func.params and \
+                not isinstance(getattr(node, 'ctx', None),
+                               (ast.Store, ast.Del)):
+            # a parameter the inlined call was given a literal for (and that
+            # is never re-bound) is that literal
+            from .model import walk_own
+            for k, v in owner.ctx.consts:
+                if k == node.id and isinstance(
+                        v, (str, bytes, int, bool, type(None))) and not any(
+                        isinstance(x, ast.Name) and x.id == node.id and
+                        isinstance(x.ctx, (ast.Store, ast.Del))
+                        for x in walk_own(owner.ctx.func.node)):
+                    return ast.Constant(value=v)
         if owner is not None:
             # copy propagation, so that facts are phrased in one vocabulary:
             # a parameter of an inlined callee that is never re-bound stands
